@@ -48,6 +48,7 @@ def run(ctx):
     x9(ctx, R)
     x10(ctx, R)
     x11(ctx, R)
+    x12(ctx, R)
     l7(ctx, R)
 
 
@@ -335,6 +336,38 @@ def is_caught(ctx, name, caught):
     return bool(set(BUILTIN_BASES.get(name, [])) & caught)
 
 
+def handler_reachable(ctx, R, tr):
+    """Functions that can run from inside the funnel's handler body (they are NOT protected by the funnel)."""
+    out = {}
+    todo = []
+    for h in tr.handlers:
+        for c in walk_no_nested(h):
+            if isinstance(c, ast.Call):
+                todo.append(call_name(c))
+    by_name = {}
+    for f in ctx.program.all_funcs():
+        if f.module.name in ("parser", "commands"):
+            by_name.setdefault(f.name.lstrip("_") if not f.name.startswith("__") or f.name.endswith("__") else f.name.lstrip("_"), []).append(f)
+    # str(e) -> __str__ of every exception class the funnel may catch
+    if any(isinstance(c, ast.Call) and call_name(c) == "str" for h in tr.handlers for c in walk_no_nested(h)):
+        for c in ctx.program.all_classes():
+            if c.module.name in ("parser", "commands") and "__str__" in c.methods:
+                out[id(c.methods["__str__"].node)] = c.methods["__str__"]
+    seen = set()
+    while todo:
+        nm = todo.pop()
+        if nm is None or nm in seen:
+            continue
+        seen.add(nm)
+        for f in by_name.get(nm.lstrip("_"), []):
+            if f.cls is not None and f.cls.name in ("Lexer", "Parser") and f.name not in ("parse",):
+                out[id(f.node)] = f
+                for c in walk_no_nested(f.node):
+                    if isinstance(c, ast.Call):
+                        todo.append(call_name(c))
+    return list(out.values())
+
+
 def x4(ctx, R):
     ctx.rule("X4", "raise closure: classes raised in code reachable from parse are caught by the funnel; the token loop is inside the try")
     tr, caught = funnel(ctx, R, "X4")
@@ -376,6 +409,11 @@ def x4(ctx, R):
                     continue
             ctx.violation("X4", f, "uncaught:%s" % name, "%s raised in %s is not caught by parse()'s handler %s" % (name, f.qualname, sorted(caught)),
                           node=r, witness="parse() raises %s instead of returning False" % name)
+    for g in handler_reachable(ctx, R, tr):
+        for r in walk_no_nested(g.node):
+            if isinstance(r, ast.Raise):
+                ctx.violation("X4", g, "raise-below-handler:%s" % raise_name(r), "%s is called from the funnel's handler and raises %s: nothing catches it"
+                              % (g.qualname, raise_name(r)), node=r, witness="parse() raises while reporting an error")
     ctx.need("X4", "raise sites reachable from parse", n, 12)
     # the token loop (every use of the lexer and of the state machine) is inside the try
     for st in R.parse.node.body:
@@ -424,8 +462,9 @@ def x5(ctx, R):
     ctx.rule("X5", "every bytes.decode reachable from parse: ASCII-only token class, non-raising error policy, or under the funnel catching UnicodeDecodeError")
     tr, caught = funnel(ctx, R, "X5")
     funnel_ok = is_caught(ctx, "UnicodeDecodeError", caught)
+    hreach = handler_reachable(ctx, R, tr)
     n = 0
-    for f in R.reachable():
+    for f in R.reachable() + [g for g in hreach if not any(g is x for x in R.reachable())]:
         for c in walk_no_nested(f.node):
             if not (isinstance(c, ast.Call) and isinstance(c.func, ast.Attribute) and c.func.attr == "decode"):
                 continue
@@ -451,7 +490,7 @@ def x5(ctx, R):
                 if ascii_only:
                     ctx.holds("X5", label, "token classes %s are ASCII-only" % sorted(classes))
                     continue
-            in_handler = f is R.parse and any(contains(h, c) for h in tr.handlers)
+            in_handler = (f is R.parse and any(contains(h, c) for h in tr.handlers)) or any(f is g for g in hreach)
             outside = f is R.parse and not contains(tr, c)
             if funnel_ok and not in_handler and not outside:
                 ctx.holds("X5", label, "runs under the funnel, which catches UnicodeDecodeError")
@@ -926,3 +965,37 @@ def l7(ctx, R, rule="L7"):
                           witness="input `%s` followed by N newlines takes time quadratic in N" % name)
         else:
             ctx.holds(rule, "rule %s: no super-linear shape" % name)
+
+
+# ------------------------------------------------------------------------------- X12
+def x12(ctx, R):
+    ctx.rule("X12", "parse_file reads the file as bytes and hands them to parse() unchanged")
+    f = R.Parser.methods.get("parse_file")
+    if f is None:
+        ctx.notice("X12", "Parser.parse_file not found")
+        return
+    opens = [c for c in walk_no_nested(f.node) if isinstance(c, ast.Call) and call_name(c) == "open"]
+    ok_mode = False
+    for c in opens:
+        mode = const_value(ctx.program, f, c.args[1]) if len(c.args) > 1 else None
+        for k in c.keywords:
+            if k.arg == "mode":
+                mode = const_value(ctx.program, f, k.value)
+        if isinstance(mode, str) and "b" in mode and "r" in mode and not any(k.arg in ("encoding", "newline", "errors") for k in c.keywords):
+            ok_mode = True
+        else:
+            ctx.violation("X12", f, "text-mode-open", "parse_file opens the script with mode %r: decoding happens outside parse()'s error handling "
+                          "and universal newlines change the positions" % (mode,), node=c,
+                          witness="a file that is not valid UTF-8 makes parse_file raise UnicodeDecodeError")
+    reads_bytes = any(isinstance(c, ast.Call) and call_name(c) in ("read_bytes",) for c in walk_no_nested(f.node))
+    calls = [c for c in walk_no_nested(f.node) if isinstance(c, ast.Call) and call_name(c) == "parse"]
+    direct = bool(calls) and all(len(c.args) == 1 and isinstance(c.args[0], ast.Call) and call_name(c.args[0]) in ("read", "read_bytes") for c in calls)
+    if (ok_mode or reads_bytes) and direct:
+        ctx.holds("X12", "%s: open(..., 'rb') and parse(fp.read())" % f.qualname)
+    elif not any(x.rule == "X12" for x in ctx.findings):
+        ctx.violation("X12", f, "bytes-not-passed", "parse_file does not pass the raw bytes of the file to parse()", node=f.node)
+    rets = [r for r in walk_no_nested(f.node) if isinstance(r, ast.Return)]
+    if rets and all(isinstance(r.value, ast.Call) and call_name(r.value) == "parse" for r in rets):
+        ctx.holds("X12", "parse_file returns parse()'s verdict")
+    else:
+        ctx.violation("X12", f, "verdict-not-returned", "parse_file does not return parse()'s verdict", node=f.node)
